@@ -9,6 +9,7 @@ from xsdata.models.datatype import XmlDate, XmlDateTime, XmlDuration, XmlPeriod,
 from sim.pool import (
     m_basic as mb,
     m_compound as mc,
+    m_edge as me,
     m_ns as mn,
     m_same1 as s1,
     m_same2 as s2,
@@ -40,7 +41,7 @@ LATE_CLASSES = {
 }
 
 CLASSES = {}
-for _m in (mb, mc, mn, s1, s2, mw, mx):
+for _m in (mb, mc, me, mn, s1, s2, mw, mx):
     _short = _m.__name__.rsplit(".", 1)[1]
     for _n, _c in vars(_m).items():
         if isinstance(_c, type) and getattr(_c, "__module__", None) == _m.__name__:
@@ -217,6 +218,27 @@ OBJS = {
     "zoo_bird": (lambda: mx.Zoo(star=l1.Bird(name="late", wingspan=1.0), animal=[l1.Bird(name="b2")]), "m_xsi.Zoo"),
     "lateroot": (lambda: l1.LateRoot(late_one_field="f", late_one_count=2), "m_late1.LateRoot"),
     "latetwo": (lambda: l2.LateTwo(late_two_field="g", late_two_flag=True), "m_late2.LateTwo"),
+    "nillist": (lambda: me.NilList(values=[1, None, 3], names=["a", None, ""], opt=None, total=3), "m_edge.NilList"),
+    "nillist_empty": (lambda: me.NilList(), "m_edge.NilList"),
+    "skipbox": (
+        lambda: me.SkipBox(head="h", skipped=[AnyElement(qname="{urn:o}raw", text="t", children=[AnyElement(qname="{urn:e}tokens", text="x")])], strict=[me.GlobalThing(w=1), AnyElement(qname="loc", text="l")]),
+        "m_edge.SkipBox",
+    ),
+    "slotted": (lambda: me.Slotted(id=1, v=["a", "b"], kid=me.Slotted(id=2, v=[], kid=me.Slotted(id=3))), "m_edge.Slotted"),
+    "holder": (
+        lambda: me.Holder(local=me.LocalThing(v="lv"), thing=me.GlobalThing(w=2), anything=me.GlobalThing(w=3), more=[1, "s", me.Slotted(id=9), AnyElement(qname="{urn:e}more", text="m")]),
+        "m_edge.Holder",
+    ),
+    "holder_prims": (lambda: me.Holder(anything=5, more=[True, 1.5]), "m_edge.Holder"),
+    "localthing": (lambda: me.LocalThing(v="only"), "m_edge.LocalThing"),
+    "tokens": (
+        lambda: me.Tokens(colors=[me.Color.RED, me.Color.BLUE], rows=[[me.Code.A, me.Code.B], [], [me.Code.C]], color_attr=[me.Color.GREEN], ids=["i1", "i2", "i1"], one=me.Color.RED, code_or_color=me.Code.C, req="r"),
+        "m_edge.Tokens",
+    ),
+    "tokens_color": (lambda: me.Tokens(code_or_color=me.Color.GREEN, req=""), "m_edge.Tokens"),
+    "blobs": (lambda: me.Blobs(blob=b"hello", hexes=[b"\x01\x02", b""], num_or_hex=b"\xab\xcd", key=b"k", value=b"\xff"), "m_edge.Blobs"),
+    "blobs_num": (lambda: me.Blobs(num_or_hex=12), "m_edge.Blobs"),
+    "attrmix": (lambda: me.AttrMix(id="i", lang="en", space="preserve", qualified=4, rest={"{urn:o}x": "1", "plain": "p"}, value=7), "m_edge.AttrMix"),
 }
 # late modules an object needs registered before it can be touched
 OBJ_NEEDS = {"bird": "L1", "zoo_bird": "L1", "lateroot": "L1", "latetwo": "L2"}
@@ -359,6 +381,22 @@ _x("hw_wrapped", "m_compound.Wrapped", """<wrapped xmlns="urn:c"><nums><num>1</n
 _x("hw_fwd", "m_compound.Fwd", """<fwd xmlns="urn:c"><nxt v="3"/></fwd>""")
 XML["hw_latin1"] = ('<?xml version="1.0" encoding="ISO-8859-1"?><price xmlns="urn:basic" currency="\u00a3">5</price>'.encode("latin-1"), "m_basic.Price", None)
 
+# less common model features and XML constructs
+_x("hw_nillist", "m_edge.NilList", """<e:nilList xmlns:e="urn:e" xmlns:xsi="http://www.w3.org/2001/XMLSchema-instance" total="4"><e:value>1</e:value><e:value xsi:nil="true"/><e:value xsi:nil="false">3</e:value><e:value xsi:nil="1"></e:value><e:name/><e:name xsi:nil="true"/><e:name xsi:nil="0">n</e:name><e:opt xsi:nil="true"/></e:nilList>""")
+_x("hw_skipbox", "m_edge.SkipBox", """<skipBox xmlns="urn:e"><head>h</head><o:raw xmlns:o="urn:o" a="1">t<tokens req="zz"><colors>purple</colors></tokens><o:in/>tail</o:raw><thing><w>1</w></thing><loc xmlns="">l</loc><o:dog xmlns:o="urn:x"><o:name>not bound</o:name></o:dog></skipBox>""")
+_x("hw_slotted", "m_edge.Slotted", """<s:slotted xmlns:s="urn:e" id="1"><s:v>a</s:v><s:kid id="2"><s:v/><s:kid id="3"/></s:kid></s:slotted>""")
+_x("hw_holder", "m_edge.Holder", """<holder xmlns="urn:e" xmlns:xsi="http://www.w3.org/2001/XMLSchema-instance" xmlns:xs="http://www.w3.org/2001/XMLSchema"><local><v>lv</v></local><thing><w>2</w></thing><anything xsi:type="thing"><w>3</w></anything><more xsi:type="xs:int">1</more><more>plain</more><more xsi:type="slotted" id="9"/><more><deep><er>x</er></deep></more></holder>""")
+_x("hw_holder_local_type", "m_edge.Holder", """<e:holder xmlns:e="urn:e" xmlns:xsi="http://www.w3.org/2001/XMLSchema-instance"><e:anything xsi:type="e:thing"><e:v>is it local?</e:v></e:anything></e:holder>""")
+_x("hw_tokens", "m_edge.Tokens", """<tokens xmlns="urn:e" colorAttr=" green  red " ids="i1 i2 i1" one="red" req="r"><colors>red blue</colors><row>1 2</row><row/><row> 30 </row><either>30</either></tokens>""")
+_x("hw_tokens_color", "m_edge.Tokens", """<tokens xmlns="urn:e" req=""><either>dark red</either></tokens>""")
+_x("hw_blobs", "m_edge.Blobs", """<blobs xmlns="urn:e" key="aw=="><blob>aGVs\nbG8=</blob><hex>0102</hex><hex/><hex>abCD</hex><numOrHex>ABCD</numOrHex></blobs>""")
+_x("hw_blobs_num", "m_edge.Blobs", """<blobs xmlns="urn:e"><numOrHex>12</numOrHex></blobs>""")
+_x("hw_attrmix", "m_edge.AttrMix", """<e:attrMix xmlns:e="urn:e" xmlns:o="urn:o" id="i" xml:lang="en" xml:space="preserve" e:qualified="4" o:x="1" plain="p"> 7 </e:attrMix>""")
+_x("hw_item_constructs", "m_basic.Item", """<?xml version="1.0"?><!DOCTYPE item [<!ENTITY nm "entity name">]><?pi before?><!-- c --><item xmlns="urn:basic" id="&#49;" xml:lang="en"><?pi inside?><name>&nm; <![CDATA[<cdata>]]> &amp;<!-- in text --> end</name><qty><![CDATA[2]]></qty></item><!-- after --><?pi after?>""")
+_x("hw_item_rebound", "m_basic.Item", """<p:item xmlns:p="urn:basic" id="1"><p:name xmlns:p="urn:basic">n</p:name><q:qty xmlns:q="urn:basic">2</q:qty><p:ref xmlns:p="urn:other" xmlns:b="urn:basic">p:val</p:ref></p:item>""")
+XML["hw_item_utf16"] = ('<?xml version="1.0" encoding="UTF-16"?><item xmlns="urn:basic" id="1"><name>n\u00e9\u20ac</name></item>'.encode("utf-16"), "m_basic.Item", None)
+XML["hw_item_bom"] = (b"\xef\xbb\xbf" + '<item xmlns="urn:basic" id="1"><name>bom \u00e9</name></item>'.encode(), "m_basic.Item", None)
+
 # documents that do not fit: name -> (bytes, class key, needs)
 BAD_XML = {}
 
@@ -385,6 +423,9 @@ _bx("bad_localbox_ns", "m_wild.LocalBox", """<w:localBox xmlns:w="urn:w" xmlns:q
 _bx("bad_union", "m_compound.EitherWay", """<either xmlns="urn:c"><pick zzz="1"><nope/></pick></either>""")
 _bx("bad_fixed", "m_basic.Item", """<item xmlns="urn:basic" id="1" version="2.0"><name>n</name></item>""")
 _bx("bad_empty", "m_basic.Item", "")
+_bx("bad_tokens_repeated", "m_edge.Tokens", """<tokens xmlns="urn:e" req="r" one="purple"><colors>red blue</colors><colors/><row>1 x</row></tokens>""")
+_bx("bad_nillist", "m_edge.NilList", """<nilList xmlns="urn:e" xmlns:xsi="http://www.w3.org/2001/XMLSchema-instance" total="x"><value xsi:nil="true">5</value><value>x</value><opt xsi:nil="maybe"/><opt>2</opt></nilList>""")
+_bx("bad_blobs", "m_edge.Blobs", """<blobs xmlns="urn:e" key="a"><blob>a</blob><hex>0</hex><numOrHex>xyz</numOrHex></blobs>""")
 
 # JSON documents: name -> (text, class key or None, needs)
 JSON = {
@@ -404,6 +445,13 @@ JSON = {
     "js_wrapped": ('{"nums": {"num": [1, 2]}, "alphas": {"alpha": [{"a": 1, "text": ""}]}}', "m_compound.Wrapped", None),
     "js_anybox": ('{"head": "h", "any_el": [{"qname": "{urn:z}f", "text": "t", "tail": null, "children": [], "attributes": {"a": "1"}}, {"value": "bold"}]}', "m_wild.AnyBox", None),
     "js_seq": ('{"a": [1, 2], "b": ["x"], "tail": "z"}', "m_compound.Seq", None),
+    "js_nillist": ('{"value": [1, null, 3], "name": ["a", null, ""], "opt": null, "total": 3}', "m_edge.NilList", None),
+    "js_holder": ('{"local": {"v": "lv"}, "thing": {"w": 2}, "anything": {"w": 3}, "more": [1, "s", {"w": 4}, {"v": "x"}]}', "m_edge.Holder", None),
+    "js_tokens": ('{"colors": ["red", "blue"], "row": [[1, 2], [], [30]], "colorAttr": ["green"], "ids": ["i1", "i1"], "one": "red", "either": 30, "req": "r"}', "m_edge.Tokens", None),
+    "js_blobs": ('{"blob": "aGVsbG8=", "hex": ["0102", ""], "numOrHex": "ABCD", "key": "aw==", "value": "FF"}', "m_edge.Blobs", None),
+    "js_attrmix": ('{"id": "i", "lang": "en", "space": null, "qualified": 4, "rest": {"{urn:o}x": "1", "plain": "p"}, "value": 7}', "m_edge.AttrMix", None),
+    "js_noclass_thing_w": ('{"w": 5}', None, None),
+    "js_noclass_thing_v": ('{"v": "only the local type has this"}', None, None),
     # located by field names only
     "js_noclass_order": ('{"number": 3, "item": [], "comment": "c", "extra": {}}', None, None),
     "js_noclass_unrelated": ('{"name": "n", "only_here": "o"}', None, None),
@@ -437,6 +485,8 @@ QNAMES = [
     ("{urn:nowhere}nothing", None),
     ("{http://www.w3.org/2001/XMLSchema}string", None),
     ("Child", None),
+    ("{urn:e}thing", None),
+    ("{urn:e}slotted", None),
 ]
 FIELD_SETS = [
     (("name", "bark"), None),
@@ -446,6 +496,9 @@ FIELD_SETS = [
     (("late_one_field",), "L1"),
     (("late_two_field", "late_two_flag"), "L2"),
     (("no_such_field_anywhere",), None),
+    (("w",), None),
+    (("v",), None),
+    (("id", "v", "kid"), None),
 ]
 
 
